@@ -167,15 +167,27 @@ long ext2fs_free_mem(void *ptr)
 }
 static struct ea_refcount RC;	/* the container of the harness (its list is the object the stubs below speak about) */
 #ifdef EA_EXACT_LIBC
-/* bounded units: exact realloc (libc model of CBMC) and an exact entry-wise memmove (overlap-safe, as the standard demands) */
+/*
+ * bounded units: exact realloc (typed allocation of the new size, may fail; the old entries copied one by one; old block
+ * freed) and an exact entry-wise memmove (overlap-safe, as the standard demands); EA_EXACT_MAX bounds the entries copied
+ */
 long ext2fs_resize_mem(unsigned long old_size, unsigned long size, void *ptr)
 {
-	void **pp = (void **) ptr;
-	void *p = realloc(*pp, size);
-	(void) old_size;
-	if (!p)
+	struct ea_refcount_el **pp = (struct ea_refcount_el **) ptr, *old = *pp, *new;
+	unsigned long long nold = old_size / sizeof(*old), nnew = size / sizeof(*old), x;
+
+#if defined(EA_SCEN_SHRINK)
+	__CPROVER_assert(0, "scenario 'shrink': the list is never resized");
+	__CPROVER_assume(0);
+#endif
+	__CPROVER_assert(size % sizeof(*old) == 0 && old_size % sizeof(*old) == 0, "realloc: whole entries");
+	new = malloc(nnew * sizeof(struct ea_refcount_el));
+	if (!new)
 		return EXT2_ET_NO_MEMORY;
-	*pp = p;
+	for (x = 0; x < nold && x < nnew; x++)
+		new[x] = old[x];
+	free(old);
+	*pp = new;
 	return 0;
 }
 void *ea_memmove(void *dst, const void *src, size_t n)
